@@ -170,6 +170,8 @@ def stuck(out):
 
 def event_kind(ev_text):
     m = re.search(r'k \|-> "(\w+)"', ev_text)
+    if not m and re.search(r'ev \|-> "msg"', ev_text):
+        return "incomplete"       # stuck at the next header: a cleanly ended message did not arrive completely (MsgComplete)
     k = m.group(1) if m else "?"
     if k == "rcvd" and re.search(r"bad \|-> \d", ev_text):
         return "corrupt"
